@@ -397,7 +397,12 @@ impl Monitor for C14 {
         let mut end_heavy = false;
         for max_n in 1..=(len + 1) {
             let r = guard(|| {
-                let c = wcet::Curve::from_trace(trace.iter().map(|x| Service::from(*x)), max_n);
+                // (every other max_n: the trace arrives through an iterator that cannot tell its length in advance)
+                let c = if max_n % 2 == 0 {
+                    wcet::Curve::from_trace(trace.iter().filter(|_| true).map(|x| Service::from(*x)), max_n)
+                } else {
+                    wcet::Curve::from_trace(trace.iter().map(|x| Service::from(*x)), max_n)
+                };
                 let plain: Vec<u64> = (0..=len).map(|n| u64::from(c.cost_of_jobs(n))).collect();
                 let mut e = c.clone();
                 let k = rng.usize(1, 2 * len + 2);
